@@ -31,6 +31,13 @@ def getattr_(I, obj, name):
     ctx = I.ctx
     if isinstance(obj, SV):
         obj = ctx.from_val(obj)
+    if isinstance(obj, SV) and isinstance(obj.ty, TOpt):
+        # Optional[X]: None has no attributes; otherwise the value has shape X
+        if ctx.branch(Z.is_none(obj.t), "is-None"):
+            raise _attr_error(I, obj, name)
+        obj = ctx.typed(obj.t, obj.ty.inner)
+        if isinstance(obj.ty, TRef):
+            ctx.assume(Z.Val.id(obj.t) < ctx.alloc0 + ctx.nalloc)
     if isinstance(obj, SV):
         ty = ctx.resolve_ty(obj.ty)
         if isinstance(ty, TObj):
